@@ -513,3 +513,14 @@ Proof.
   rewrite Hr in Hr'. injection Hr' as <-. rewrite Ha in Ha'. injection Ha' as <-. tauto.
 Qed.
 End Mut.
+
+(** C05: a config built from a seed list resolves to the PDA of exactly those seeds *)
+Theorem ctor_seeds_resolves find_pda ss s w e ix pid get vs :
+  new_with_seeds ss s w = Ok e -> seed_values ss ix get = Ok vs ->
+  resolve find_pda e ix pid get =
+  match find_pda vs pid with Some k => Ok {| m_key := k; m_signer := s; m_writable := w |} | None => Err E_RES end.
+Proof.
+  intros Hc Hs. destruct (ctor_seeds ss s w e Hc) as (Hd & Hu & _ & Hsg & Hwr).
+  rewrite (resolve_pda_kind find_pda e ix pid get pid ss vs (or_introl (conj Hd eq_refl)) Hu Hs).
+  unfold flags_of. now rewrite Hsg, Hwr.
+Qed.
